@@ -38,6 +38,9 @@ type c20Input struct {
 	// Huge: NumGenerations is "run until solved" (math.MaxInt / 1<<56) instead of the row length; only used with
 	// scripts in which every trial has an outcome other than "unsolved" (the run then ends inside the script)
 	Huge int `json:"huge_generation_limit,omitempty"`
+	// Nested: the context the experiment's options are attached to already descends from a context carrying OTHER
+	// options (an application base context, a reloaded configuration): the innermost options govern the run
+	Nested int `json:"nested_options_context,omitempty"`
 }
 
 type c20Pop struct {
@@ -91,6 +94,11 @@ func (e *c20Env) GenerationEvaluate(_ context.Context, pop *genetics.Population,
 		o.Fitness = 1.0 + float64(i%7)
 	}
 	epoch.FillPopulationStatistics(pop)
+	if epoch.TrialId < len(e.script) && epoch.Id >= len(e.script[epoch.TrialId])+2 {
+		// the run is two generations past anything the script (and so the model) can ask for: stop it here, the
+		// trace already differs from the model's
+		return errEvalC20
+	}
 	o := 0
 	if epoch.TrialId < len(e.script) && epoch.Id < len(e.script[epoch.TrialId]) {
 		o = e.script[epoch.TrialId][epoch.Id]
@@ -157,7 +165,17 @@ func c20Exec(in c20Input) (trace [][]int64, status int, execErr error) {
 	if in.Huge > 0 && c20EveryTrialDecides(in.Script) {
 		opts.NumGenerations = []int{math.MaxInt, math.MaxInt / 2, 1 << 56}[in.Huge%3]
 	}
-	ctx, cancel := context.WithCancel(context.Background())
+	base := context.Background()
+	if in.Nested > 0 {
+		other := *opts
+		other.NumRuns = opts.NumRuns + in.Nested
+		other.NumGenerations = len(in.Script[0]) + 1 + in.Nested%3
+		if in.Nested%2 == 0 {
+			other.NumRuns, other.NumGenerations = 1, 1
+		}
+		base = neat.NewContext(base, &other)
+	}
+	ctx, cancel := context.WithCancel(base)
 	defer cancel()
 	env := &c20Env{script: in.Script, cancel: cancel, byT: map[int]*c20Pop{}}
 	exp := experiment.Experiment{}
@@ -408,6 +426,9 @@ func runC20(r *Run) error {
 		inp := c20Input{Obs: r.Rng.Intn(4) != 0, Script: script}
 		if c20EveryTrialDecides(script) && r.Rng.Intn(2) == 0 {
 			inp.Huge = 1 + r.Rng.Intn(3)
+		}
+		if runs > 0 && gens > 0 && r.Rng.Intn(4) == 0 {
+			inp.Nested = 1 + r.Rng.Intn(4)
 		}
 		add(inp)
 	}
